@@ -26,6 +26,7 @@ import (
 	"github.com/tailscale/setec/types/api"
 	"github.com/tink-crypto/tink-go/v2/aead"
 	"github.com/tink-crypto/tink-go/v2/keyset"
+	"github.com/tink-crypto/tink-go/v2/testutil"
 	"github.com/tink-crypto/tink-go/v2/tink"
 )
 
@@ -33,6 +34,7 @@ type C05Input struct {
 	Mode   string   `json:"mode"`  // hist | tamper | keys | mode
 	MSeed  uint64   `json:"mseed"` // seed of the marker table
 	Ops    []DBStep `json:"ops,omitempty"`
+	DevKey bool     `json:"dev_key,omitempty"` // the database is created with the PUBLIC dev placeholder key (setec server --dev)
 	Outage bool     `json:"outage,omitempty"` // the key service is DOWN between opens: any KEK call after open fails
 	Class  string   `json:"class,omitempty"`  // tamper class
 	Detail string   `json:"detail,omitempty"`
@@ -317,6 +319,8 @@ type c05Env struct {
 	d                *db.DB
 	aw               *audit.Writer
 	super            db.Caller
+	nobody           db.Caller // a caller without any grant
+	devKey           bool      // created with the public dev placeholder key
 	createUses       int
 }
 
@@ -340,6 +344,7 @@ func newC05Env(dir string, kek tink.AEAD) (*c05Env, error) {
 	e.d = d
 	e.createUses = e.kek.count()
 	e.super = mkCaller(DBCaller{ID: 1, Rules: superRules()})
+	e.nobody = mkCaller(DBCaller{ID: 9})
 	return e, nil
 }
 
@@ -395,6 +400,10 @@ func (e *c05Env) step(m *c05Markers, st DBStep) c05StepObs {
 	k0 := e.kek.count()
 	name := string(st.Name)
 	var err error
+	who := e.super
+	if st.Caller == 1 {
+		who = e.nobody
+	}
 	hidden := e.state + ".hidden"
 	if st.SaveFail { // the file system refuses the save: the state directory is unreachable during the call
 		if rerr := os.Rename(e.state, hidden); rerr != nil {
@@ -411,21 +420,21 @@ func (e *c05Env) step(m *c05Markers, st DBStep) c05StepObs {
 		case "reopen":
 			_, err = e.reopen()
 		case "put":
-			_, err = e.d.Put(e.super, name, m.values[(st.Val-1)%len(m.values)])
+			_, err = e.d.Put(who, name, m.values[(st.Val-1)%len(m.values)])
 		case "activate":
-			err = e.d.Activate(e.super, name, api.SecretVersion(st.Ver))
+			err = e.d.Activate(who, name, api.SecretVersion(st.Ver))
 		case "delver":
-			err = e.d.DeleteVersion(e.super, name, api.SecretVersion(st.Ver))
+			err = e.d.DeleteVersion(who, name, api.SecretVersion(st.Ver))
 		case "del":
-			err = e.d.Delete(e.super, name)
+			err = e.d.Delete(who, name)
 		case "get":
-			_, err = e.d.Get(e.super, name)
+			_, err = e.d.Get(who, name)
 		case "getver":
-			_, err = e.d.GetVersion(e.super, name, api.SecretVersion(st.Ver))
+			_, err = e.d.GetVersion(who, name, api.SecretVersion(st.Ver))
 		case "info":
-			_, err = e.d.Info(e.super, name)
+			_, err = e.d.Info(who, name)
 		case "list":
-			_, err = e.d.List(e.super)
+			_, err = e.d.List(who)
 		}
 	})
 	if st.SaveFail {
@@ -520,6 +529,10 @@ func coqHist(m *c05Markers, ops []DBStep, obs []c05StepObs) string {
 		if ops[i].Kind == "reopen" {
 			parts[i] = fmt.Sprintf("HRe (%s)", coqSobs(obs[i]))
 		} else {
+			if ops[i].Caller == 1 {
+				parts[i] = fmt.Sprintf("HOpD (%s) (%s)", c05CoqOp(m, ops[i]), coqSobs(obs[i]))
+				continue
+			}
 			parts[i] = fmt.Sprintf("HOp %s (%s) (%s)", coqBool(!ops[i].SaveFail), c05CoqOp(m, ops[i]), coqSobs(obs[i]))
 		}
 	}
@@ -548,6 +561,17 @@ func genC05Step(r *rand.Rand, m *c05Markers, last []secDump, prev string, long b
 	if r.IntN(3) > 0 {
 		st.Name = m.names[r.IntN(2)]
 	}
+	switch r.IntN(12) {
+	case 0: // a put under the reserved prefix: refused as unknown config value - after its audit record
+		st.Kind = "put"
+		st.Name = append([]byte("_internal/"), m.names[r.IntN(len(m.names))]...)
+	case 1: // ... attempted by a caller without any grant
+		st.Kind = "put"
+		st.Name = append([]byte("_internal/"), m.names[r.IntN(len(m.names))]...)
+		st.Caller = 1
+	case 2: // a mutating call on an ordinary name by a caller without any grant
+		st.Caller = 1
+	}
 	var cur *secDump
 	for i := range last {
 		if bytes.Equal(last[i].Name, st.Name) {
@@ -561,7 +585,7 @@ func genC05Step(r *rand.Rand, m *c05Markers, last []secDump, prev string, long b
 	}
 	st.Val = 1 + r.IntN(len(m.values))
 	st.NameQ = fmt.Sprintf("%q", st.Name)
-	if isMut(st.Kind) && r.IntN(7) == 0 {
+	if isMut(st.Kind) && st.Caller == 0 && r.IntN(7) == 0 {
 		st.SaveFail = true // the file system refuses this call's save: the rollback path
 	}
 	return st
@@ -569,10 +593,17 @@ func genC05Step(r *rand.Rand, m *c05Markers, last []secDump, prev string, long b
 
 // runC05History executes fixed (r == nil) or generated ops; returns the record and the
 // environment still open (for the tamper runs), which the caller closes.
-func runC05History(work string, idx int, mseed uint64, outage bool, ops []DBStep, r *rand.Rand, length int) (Record, *c05Env, []secDump) {
+func runC05History(work string, idx int, mseed uint64, outage, devKey bool, ops []DBStep, r *rand.Rand, length int) (Record, *c05Env, []secDump) {
 	m := genMarkers(mseed)
-	in := C05Input{Mode: "hist", MSeed: mseed, Ops: ops, Outage: outage}
-	env, err := newC05Env(filepath.Join(work, fmt.Sprintf("c05db%d", idx%32)), newKEK())
+	in := C05Input{Mode: "hist", MSeed: mseed, Ops: ops, Outage: outage, DevKey: devKey}
+	kek := newKEK()
+	if devKey {
+		kek = devKEK()
+	}
+	env, err := newC05Env(filepath.Join(work, fmt.Sprintf("c05db%d", idx%32)), kek)
+	if env != nil {
+		env.devKey = devKey
+	}
 	if err != nil {
 		return Record{Kind: "hist", Input: in, Key: fmt.Sprintf("create-failed-%d", idx),
 			Direct: &DirectVerdict{OK: false, What: "cannot create a database: " + err.Error()}}, nil, nil
@@ -624,11 +655,20 @@ func runC05History(work string, idx int, mseed uint64, outage bool, ops []DBStep
 		if st.SaveFail && obs[i].Res == "other" {
 			tags["refused-save"] = true
 		}
+		if bytes.HasPrefix(st.Name, []byte("_internal/")) {
+			tags["put-reserved-name"] = true
+		}
+		if st.Caller == 1 {
+			tags["caller-without-grant"] = true
+		}
+		if devKey {
+			tags["dev-key-database"] = true
+		}
 		if outage {
 			tags["key-service-down"] = true
 		}
 	}
-	rec := Record{Kind: "hist", Input: in, Obs: obs, Key: fmt.Sprintf("%d:%v:%s", mseed, outage, kb), Coq: coqHist(m, in.Ops, obs),
+	rec := Record{Kind: "hist", Input: in, Obs: obs, Key: fmt.Sprintf("%d:%v:%v:%s", mseed, outage, devKey, kb), Coq: coqHist(m, in.Ops, obs),
 		Nontrivial: saves >= 3, Tags: append(sortedKeys(tags), "hist")}
 	if env.hung != "" {
 		// a deadlocked handle: a runtime fact, reported by itself with the history as replay
@@ -658,6 +698,7 @@ type openSession struct {
 	tok    func([]byte) uint64
 	dumps  []string // table of distinct dumps (Gallina), referenced by index
 	dumpIx map[string]int
+	devIdx int               // index of the dev placeholder key among the foreign keys (0: the database itself uses it)
 	dir    string            // the live state directory
 	snap   map[string]string // every other file of it as the server left it: name -> mode+hash
 }
@@ -907,8 +948,16 @@ func genTampers(r *rand.Rand, env *c05Env, keys []*countingAEAD, m *c05Markers, 
 		out = append(out, tamperCase{"foreign-kek", "fresh AES-256-GCM key", orig, 1})
 		out = append(out, tamperCase{"foreign-kek", "second fresh AES-256-GCM key", orig, 2})
 		for i := 3; i < len(keys); i++ {
-			out = append(out, tamperCase{"foreign-kek", fmt.Sprintf("golden key %d", i-3), orig, i})
+			out = append(out, tamperCase{"foreign-kek", fmt.Sprintf("further key #%d (golden test keys; last: the public dev placeholder key, unless the database was created with it)", i-3), orig, i})
 		}
+	}
+	// the whole file replaced by a valid database written under ANOTHER key (a fresh one; the
+	// public dev placeholder key, or - for a dev-key database - nothing more public than that):
+	// opening with this database's key must fail, not serve the forged contents
+	out = append(out, tamperCase{"replace-file", "a database written under a fresh foreign key copied over this one", otherDB(filepath.Join(work, "c05other"), keys[1].inner, m, 3), kek})
+	if !env.devKey {
+		out = append(out, tamperCase{"replace-file", "a database written under the public dev placeholder key copied over this one", otherDB(filepath.Join(work, "c05other"), devKEK(), m, 3), kek})
+		out = append(out, tamperCase{"replace-file", "an EMPTY database written under the public dev placeholder key copied over this one", otherDB(filepath.Join(work, "c05other"), devKEK(), m, 0), kek})
 	}
 	gfiles, _ := goldenFiles()
 	// fields of other valid databases
@@ -984,6 +1033,12 @@ func newSession(work string, env *c05Env, m *c05Markers) *openSession {
 	_, gkeks := goldenFiles()
 	for _, gk := range gkeks {
 		s.keys = append(s.keys, &countingAEAD{inner: gk})
+	}
+	if !env.devKey {
+		// the public dev placeholder key is one of the foreign keys tried on a real-key database
+		// (on a database created with it, the fresh keys above are the foreign ones)
+		s.keys = append(s.keys, &countingAEAD{inner: devKEK()})
+		s.devIdx = len(s.keys) - 1
 	}
 	s.snap = dirSnapshot(s.dir, filepath.Base(s.path))
 	return s
@@ -1216,6 +1271,9 @@ func modeRecords(work string) []Record {
 	return recs
 }
 
+// devKEK: the well-known placeholder key of `setec server --dev` (cmd/setec/setec.go) - public knowledge.
+func devKEK() tink.AEAD { return &testutil.DummyAEAD{Name: "SetecDevOnlyDummyEncryption"} }
+
 var c05Hung int // histories of this run that ended in a deadlocked handle
 
 // scenarioBounded runs a whole scenario that calls into database handles; if it has not
@@ -1259,7 +1317,7 @@ func runC05(o Opts) {
 					out.Emit(r)
 				}
 			case "tamper":
-				rec, env, last := runC05History(work, i, in.MSeed, in.Outage, in.Ops, nil, 0)
+				rec, env, last := runC05History(work, i, in.MSeed, in.Outage, in.DevKey, in.Ops, nil, 0)
 				if env != nil && env.hung != "" {
 					out.Emit(rec)
 					env.close()
@@ -1281,7 +1339,7 @@ func runC05(o Opts) {
 					env.close()
 				}
 			default:
-				rec, env, _ := runC05History(work, i, in.MSeed, in.Outage, in.Ops, nil, 0)
+				rec, env, _ := runC05History(work, i, in.MSeed, in.Outage, in.DevKey, in.Ops, nil, 0)
 				if env != nil {
 					env.close()
 				}
@@ -1292,7 +1350,7 @@ func runC05(o Opts) {
 	}
 	idx := 0
 	for _, in := range readCorpus[C05Input](o.Corpus) {
-		rec, env, _ := runC05History(work, idx, in.MSeed, in.Outage, in.Ops, nil, 0)
+		rec, env, _ := runC05History(work, idx, in.MSeed, in.Outage, in.DevKey, in.Ops, nil, 0)
 		if env != nil {
 			env.close()
 		}
@@ -1347,7 +1405,7 @@ func runC05(o Opts) {
 			length = 30 + r.IntN(16) // long, mutation-heavy, rare reopens: many saves on one handle
 		}
 		mseed := o.Seed*1000 + uint64(i)
-		rec, env, last := runC05History(work, idx, mseed, i%3 == 1, nil, r, length)
+		rec, env, last := runC05History(work, idx, mseed, i%3 == 1, i%5 == 2, nil, r, length)
 		idx++
 		rec.ID = out.n
 		out.Emit(rec)
